@@ -14,13 +14,17 @@ Lemma w_ok_premises : wf w_ok = true /\ closed_world w_ok = true /\ refs_declare
                       used w_ok = [L "Team"; L "Status"; L "User"]%string.
 Proof. vm_compute. repeat split; reflexivity. Qed.
 
-Lemma w_garbage_broken : wf w_garbage = true /\ closed_world w_garbage = true /\ kf_garbage w_garbage = true /\ broken w_garbage = true.
+(* the former comma-splitting witness at a return position is a type again, and now lies in the prefix class *)
+Lemma w_garbage_now_prefix : in_class (kf_prefix w_garbage) w_garbage false /\ broken w_garbage = false.
 Proof. vm_compute. repeat split; reflexivity. Qed.
-Lemma w_prefix_fails : in_class (kf_prefix w_prefix) w_prefix false /\ in_class (kf_prefix w_prefix2) w_prefix2 false.
+Lemma w_prefix_fails : in_class (kf_prefix w_prefix) w_prefix false /\ in_class (kf_prefix w_prefix3) w_prefix3 false.
 Proof. vm_compute. repeat split; reflexivity. Qed.
 (* repaired defects: the former witnesses now satisfy the property, outside every class *)
 Definition repaired (p : proj) (zod : bool) : Prop :=
   wf p = true /\ closed_world p = true /\ refs_declared p = true /\ kf_C02 p zod = false /\ c02_ok (gen p zod) = true.
+Lemma w_batch3_repaired : repaired w_tuple_map_field false /\ repaired w_tuple_map_field true /\
+                          repaired w_prefix2 false /\ repaired w_vecvec_user true.
+Proof. vm_compute. repeat split; reflexivity. Qed.
 Lemma w_zod_enum_repaired : repaired w_zod_enum true /\ repaired w_zod_enum false.
 Proof. vm_compute. repeat split; reflexivity. Qed.
 Lemma w_result1_repaired : repaired w_result1 false /\ repaired w_result1 true.
